@@ -1,4 +1,44 @@
-(* C18 — theorems in progress; this file is replaced as they are proved *)
-From AB Require Import Check.WorldCheck.
-Theorem c18_placeholder : True. Proof. exact I. Qed.
-Print Assumptions c18_placeholder.
+(* C18 — backend failures (partial: the exhaustive fault enumeration with pred_c18 decides the
+   rest on the implementation; the model has the same fault oracle and must agree on every facet). *)
+From AB Require Import World.Handlers Proofs.MonadInv Proofs.Misc Proofs.StoreLogic Proofs.OneTimeProofs Proofs.Neutral.
+
+(* a failed backend call is an error outcome: no value, and nothing changes — not storage, not
+   the pending client-state events, not what was written, no mail, no SMS *)
+Theorem c18_backend_fault_is_error : forall E (A : Type) k (body : M A) h r h' ek,
+  fault_at (h_ncalls h) (o_faults (e_O E)) = Some ek ->
+  backend (e_O E) k body h = (r, h') ->
+  (exists e, r = Err e) /\ h_st h' = h_st h /\ h_sev h' = h_sev h /\ h_cev h' = h_cev h /\ h_out h' = h_out h /\
+  h_mails h' = h_mails h /\ h_smss h' = h_smss h.
+Proof. exact backend_fault_is_error. Qed.
+Print Assumptions c18_backend_fault_is_error.
+
+(* one-time password login: either only uid-neutral events were appended (nobody logged in),
+   or the consumption of the matched OTP is in storage — under every fault plan *)
+Theorem c18_otp_no_session_without_consumption : forall (E : env) h r h',
+  otp_login_post E h = (r, h') ->
+  (exists ls, h_sev h' = h_sev h ++ ls /\ Forall sess_neutral ls) \/
+  (exists u i,
+     ulookup (aget (pid_field E) (values E)) (s_users (h_st h)) = Some u /\
+     otp_match (sha (e_C E) (aget f_password (values E))) (split_otps (u_otps u)) 0%nat = Some (Some i) /\
+     (exists su, ulookup (u_pid u) (s_users (h_st h')) = Some su /\ upto_lock (otp_consumed u i) su) /\
+     (forall p, p <> u_pid u -> ulookup p (s_users (h_st h')) = ulookup p (s_users (h_st h)))).
+Proof. exact otp_login_cases. Qed.
+Print Assumptions c18_otp_no_session_without_consumption.
+
+(* handlers that fire no event hooks never panic, whatever the backend does (the repaired
+   recover start among them) *)
+Theorem c18_no_panic_recover_start : forall E, np (recover_start_post E).
+Proof. exact np_recover_start_post. Qed.
+Print Assumptions c18_no_panic_recover_start.
+Theorem c18_no_panic_confirm : forall E, np (confirm_get E).
+Proof. exact np_confirm_get. Qed.
+Print Assumptions c18_no_panic_confirm.
+Theorem c18_no_panic_logout : forall E, np (logout E).
+Proof. exact np_logout. Qed.
+Print Assumptions c18_no_panic_logout.
+Theorem c18_no_panic_remember : forall E, np (remember_authenticate E).
+Proof. exact np_remember_authenticate. Qed.
+Print Assumptions c18_no_panic_remember.
+Theorem c18_no_panic_otp_add : forall E, np (otp_add_post E).
+Proof. exact np_otp_add_post. Qed.
+Print Assumptions c18_no_panic_otp_add.
